@@ -1,6 +1,6 @@
 (* C13 proofs, part 6: the block-state registry table (Gen/Registry.v, dumped by running level/block
    through the code paths of writeStatesPalette / readStatesPalette) - a finite sweep re-checked by the kernel *)
-From Coq Require Import List Arith NArith Lia Bool Sorting.Mergesort Orders Permutation ZifyN ZifyNat ZifyBool.
+From Coq Require Import List Arith NArith ZArith Lia Bool Sorting.Mergesort Orders Permutation ZifyN ZifyNat ZifyBool.
 From GoMC Require Import Base.Bytes Gen.Registry.
 Import ListNotations.
 Open Scope N_scope.
@@ -85,3 +85,27 @@ Proof. vm_compute. reflexivity. Qed.
 Definition bio_key : N -> N := key_of bio_rows.
 Definition bio_back : N -> N := back_of bio_rows.
 Definition biome_facts := table_facts bio_rows bio_count bio_check_ok.
+
+(* the air states: the three ids the generator found BY NAME in the running registry *)
+Definition reg_is_air (v : Z) : bool := existsb (fun a => (Z.of_N a =? v)%Z) reg_air.
+Definition air_check : bool :=
+  (lenN reg_air =? 3) && incr (NSort.sort reg_air) &&
+  forallb (fun a => (a <? reg_count) && (reg_back a =? a)) reg_air && reg_is_air 0%Z.
+Lemma air_check_ok : air_check = true.
+Proof. vm_compute. reflexivity. Qed.
+Lemma air_facts :
+  lenN reg_air = 3 /\ NoDup reg_air /\ (forall a, In a reg_air -> a < reg_count /\ reg_back a = a) /\
+  reg_is_air 0%Z = true /\ (forall v, reg_is_air v = true <-> exists a, In a reg_air /\ Z.of_N a = v).
+Proof.
+  pose proof air_check_ok as H. unfold air_check in H.
+  apply andb_true_iff in H. destruct H as [H H4]. apply andb_true_iff in H. destruct H as [H H3].
+  apply andb_true_iff in H. destruct H as [H1 H2]. apply N.eqb_eq in H1.
+  split; [exact H1|]. split.
+  { apply (Permutation_NoDup (l := NSort.sort reg_air)); [apply Permutation_sym, NSort.Permuted_sort|apply incr_nodup, H2]. }
+  split.
+  { intros a Ha. rewrite forallb_forall in H3. specialize (H3 a Ha). apply andb_true_iff in H3. destruct H3 as [A B].
+    apply N.ltb_lt in A. apply N.eqb_eq in B. auto. }
+  split; [exact H4|]. intros v. unfold reg_is_air. rewrite existsb_exists. split.
+  - intros (a & Ha & E). exists a. split; [exact Ha|]. apply Z.eqb_eq in E. exact E.
+  - intros (a & Ha & E). exists a. split; [exact Ha|]. apply Z.eqb_eq. exact E.
+Qed.
